@@ -133,3 +133,86 @@ Proof.
     destruct (utf8_encode s) as [bs|] eqn:Es; [|discriminate].
     apply Some_inj in H. subst b. rewrite (utf8_valid_char _ _ _ Ec). apply IH. reflexivity.
 Qed.
+
+(* completeness: a valid string is the encoding of the scalar values it decodes to *)
+Lemma utf8_char_1 b0 : (b0 <? 128) = true -> utf8_char b0 = Some [b0].
+Proof. intro H. unfold utf8_char. rewrite H. reflexivity. Qed.
+
+Lemma utf8_char_2 b0 b1 : in_rng 194 223 b0 = true -> cont b1 = true ->
+  utf8_char ((b0 - 192) * 64 + (b1 - 128)) = Some [b0; b1].
+Proof.
+  unfold in_rng, cont, utf8_char. intros H0 H1. set (c := (b0 - 192) * 64 + (b1 - 128)).
+  assert (Hc : 128 <= c < 2048 /\ c / 64 = b0 - 192 /\ c mod 64 = b1 - 128) by (subst c; lia).
+  replace (c <? 128) with false by lia. replace (c <? 2048) with true by lia.
+  destruct Hc as (_ & -> & ->). repeat f_equal; lia.
+Qed.
+
+Lemma utf8_char_3 b0 b1 b2 : in_rng 224 239 b0 = true ->
+  (if b0 =? 224 then in_rng 160 191 b1 else if b0 =? 237 then in_rng 128 159 b1 else cont b1) = true -> cont b2 = true ->
+  utf8_char ((b0 - 224) * 4096 + (b1 - 128) * 64 + (b2 - 128)) = Some [b0; b1; b2].
+Proof.
+  unfold in_rng, cont, utf8_char. intros H0 H1 H2. set (c := (b0 - 224) * 4096 + (b1 - 128) * 64 + (b2 - 128)).
+  assert (Hb1 : 128 <= b1 <= 191 /\ (b0 = 224 -> 160 <= b1) /\ (b0 = 237 -> b1 <= 159)).
+  { destruct (b0 =? 224) eqn:E1; [lia|]. destruct (b0 =? 237) eqn:E2; lia. }
+  assert (Hc : 2048 <= c < 65536 /\ c / 4096 = b0 - 224 /\ (c / 64) mod 64 = b1 - 128 /\ c mod 64 = b2 - 128
+               /\ (c < 55296 \/ 57343 < c)) by (subst c; lia).
+  replace (c <? 128) with false by lia. replace (c <? 2048) with false by lia. replace (c <? 65536) with true by lia.
+  replace ((55296 <=? c) && (c <=? 57343)) with false by lia.
+  destruct Hc as (_ & -> & -> & -> & _). repeat f_equal; lia.
+Qed.
+
+Lemma utf8_char_4 b0 b1 b2 b3 : in_rng 240 244 b0 = true ->
+  (if b0 =? 240 then in_rng 144 191 b1 else if b0 =? 244 then in_rng 128 143 b1 else cont b1) = true ->
+  cont b2 = true -> cont b3 = true ->
+  utf8_char ((b0 - 240) * 262144 + (b1 - 128) * 4096 + (b2 - 128) * 64 + (b3 - 128)) = Some [b0; b1; b2; b3].
+Proof.
+  unfold in_rng, cont, utf8_char. intros H0 H1 H2 H3.
+  set (c := (b0 - 240) * 262144 + (b1 - 128) * 4096 + (b2 - 128) * 64 + (b3 - 128)).
+  assert (Hb1 : 128 <= b1 <= 191 /\ (b0 = 240 -> 144 <= b1) /\ (b0 = 244 -> b1 <= 143)).
+  { destruct (b0 =? 240) eqn:E1; [lia|]. destruct (b0 =? 244) eqn:E2; lia. }
+  assert (Hc : 65536 <= c < 1114112 /\ c / 262144 = b0 - 240 /\ (c / 4096) mod 64 = b1 - 128
+               /\ (c / 64) mod 64 = b2 - 128 /\ c mod 64 = b3 - 128) by (subst c; lia).
+  replace (c <? 128) with false by lia. replace (c <? 2048) with false by lia. replace (c <? 65536) with false by lia.
+  replace (c <? 1114112) with true by lia.
+  destruct Hc as (_ & -> & -> & -> & ->). repeat f_equal; lia.
+Qed.
+
+Lemma utf8_decode_encode b : forall t, utf8_decode b = Some t -> utf8_encode t = Some b.
+Proof.
+  remember (length b) as n eqn:Hn. revert b Hn.
+  induction n as [n IH] using lt_wf_ind. intros b Hn t.
+  destruct b as [|b0 r]; cbn [utf8_decode].
+  { intros [= <-]. reflexivity. }
+  cbn [length] in Hn.
+  assert (Hrec : forall r' (cp : N) (enc : bytes), (length r' < n)%nat -> utf8_char cp = Some enc ->
+            option_map (cons cp) (utf8_decode r') = Some t -> utf8_encode t = Some (enc ++ r')).
+  { intros r' cp enc Hl Hc Hd. destruct (utf8_decode r') as [t'|] eqn:Er; [|discriminate].
+    cbn [option_map] in Hd. apply Some_inj in Hd. subst t. cbn [utf8_encode]. rewrite Hc.
+    rewrite (IH _ Hl r' eq_refl t' Er). reflexivity. }
+  destruct (b0 <? 128) eqn:E1.
+  { intro H. apply (Hrec r b0 [b0]); [lia|apply utf8_char_1; exact E1|exact H]. }
+  destruct (in_rng 194 223 b0) eqn:E2.
+  { destruct r as [|b1 r1]; [discriminate|]. cbn [length] in Hn. destruct (cont b1) eqn:C1; [|discriminate].
+    intro H. apply (Hrec r1 _ [b0; b1]); [lia|apply utf8_char_2; assumption|exact H]. }
+  destruct (in_rng 224 239 b0) eqn:E3.
+  { destruct r as [|b1 [|b2 r2]]; try discriminate. cbn [length] in Hn.
+    destruct (if b0 =? 224 then in_rng 160 191 b1 else if b0 =? 237 then in_rng 128 159 b1 else cont b1) eqn:C1;
+      cbn [andb]; [|discriminate].
+    destruct (cont b2) eqn:C2; [|discriminate].
+    intro H. apply (Hrec r2 _ [b0; b1; b2]); [lia|apply utf8_char_3; assumption|exact H]. }
+  destruct (in_rng 240 244 b0) eqn:E4; [|discriminate].
+  destruct r as [|b1 [|b2 [|b3 r3]]]; try discriminate. cbn [length] in Hn.
+  destruct (if b0 =? 240 then in_rng 144 191 b1 else if b0 =? 244 then in_rng 128 143 b1 else cont b1) eqn:C1;
+    cbn [andb]; [|discriminate].
+  destruct (cont b2) eqn:C2; cbn [andb]; [|discriminate].
+  destruct (cont b3) eqn:C3; [|discriminate].
+  intro H. apply (Hrec r3 _ [b0; b1; b2; b3]); [lia|apply utf8_char_4; assumption|exact H].
+Qed.
+
+(* valid = is an encoding *)
+Lemma utf8_valid_iff_encoding b : utf8_valid b = true <-> exists s, utf8_encode s = Some b.
+Proof.
+  split.
+  - intro H. apply utf8_valid_decode in H as [t Ht]. exists t. apply utf8_decode_encode. exact Ht.
+  - intros [s Hs]. eapply utf8_encode_valid. exact Hs.
+Qed.
